@@ -98,7 +98,7 @@ def gen_array(rng):
     rng.shuffle(cs)
     route = base['route'] if base['route'] != 'widened' else 'ctor'
     if rng.random() < 0.3: route = rng.choice(['slice', 'slice_step', 'mask'])      # (item assignment of the whole sequence)
-    return {'f': base['f'], 'cs': cs, 'o': base['o'], 'r': base['r'], 'kind': rng.choice(['raw', 'value']), 'route': route}
+    return {'f': base['f'], 'cs': cs, 'o': base['o'], 'r': base['r'], 'kind': rng.choice(['raw', 'value']), 'route': route, 'strarr': rng.choice([None, None, 'hex', 'bin'])}
 
 def run_array_cases(cases, res):
     fx = lib.impl(); import numpy as np
@@ -106,6 +106,9 @@ def run_array_cases(cases, res):
     for c in cases:
         s, n, nf = c['f']; lo, hi = S.fmt_bounds(s, n)
         kw = dict(rounding=c['r'], overflow=c['o']); raw = c['kind'] == 'raw'; val = list(c['cs'])
+        if c.get('strarr') and raw and all(lo <= v <= hi for v in c['cs']):
+            # the codes as hex / binary strings held in a NumPy string array (what np.array(x.hex()) gives)
+            val = np.array([('0x' + c11.py_hex(n, v)) if c['strarr'] == 'hex' else ('0b' + c11.py_bin(n, v)) for v in c['cs']])
         try:
             if c['route'] == 'ctor': x = fx.Fxp(val, s, n, nf, raw=raw, **kw)
             elif c['route'] in ('slice', 'slice_step', 'mask'):
